@@ -671,6 +671,9 @@ def bitwise_xor_simplifier_minmax(a, b):
 
     if u.op != "__xor__":
         return None
+    if len(u.args) != 2 or len(s.args) != 2:
+        # a flattened (s ^ q) ^ k or (q - r) - k: there is more to it than the idiom
+        return None
 
     if len(t.args) != 2:
         return None
